@@ -124,6 +124,15 @@ T.update({
  'C19-d': ('C19', 'partial/idn2/is_utf8_domain.c: IDN2_ENCODING_ERROR reported as EEAV_DOMAIN_INVALID_CHAR instead of EEAV_IDN_ERROR',
            'mode 6531, a domain that is not valid UTF-8 (a@ex\\xC3mple.com): one IDN error code out of many'),
 })
+# round 12
+T.update({
+ 'C08-d': ('C08', 'partial/idn2/eav.c: case TLD_TYPE_INFRASTRUCTURE tests the EAV_TLD_SPONSORED bit',
+           'a .arpa host name (the only infrastructure TLD) and an allow_tld mask in which the INFRASTRUCTURE and SPONSORED bits differ'),
+ 'C15-d': ('C15', 'src/is_5321_local.c: non-ASCII test ch > 127 became ch >= 0x7f (DEL reported as non-ASCII)',
+           'mode 5321, a DEL byte in the local part: still rejected, but with EEAV_LPART_NOT_ASCII instead of EEAV_LPART_CTRL_CHAR'),
+ 'C16-e': ('C16', 'include/eav/private_email.h check_ip(): untagged-IPv6 test strchr(email, \':\') instead of strchr(brs + 1, \':\')',
+           'an accepted address with a quoted local part containing a colon and an IPv4 literal ("a:b"@[192.168.10.1]): flagged is_ipv6'),
+})
 for sid, (prop, change, needs) in T.items():
     d = os.path.join(S, sid)
     if not os.path.isdir(d):
